@@ -2,7 +2,7 @@
 # Re-evaluates every kept seeded change against the quick check of its own property (and of
 # the properties named in meta.json "caught_by") and writes seeded/RESULTS.md.
 cd "$(dirname "$0")/.."
-out=seeded/RESULTS.md
+out=${OUT:-seeded/RESULTS.md}
 echo "# Seeded changes vs. quick checks ($(date -u +%Y-%m-%dT%H:%MZ), /repo $(git -C /repo rev-parse --short HEAD), /verif $(git rev-parse --short HEAD))" > $out.tmp
 echo >> $out.tmp
 echo "| change | property checked | verdict | seconds | first message |" >> $out.tmp
